@@ -10,6 +10,7 @@ import (
 	"errors"
 	"fmt"
 	"io"
+	"net"
 	"strings"
 
 	"github.com/gobwas/ws"
@@ -49,6 +50,14 @@ type Opts struct {
 	// further Read (how wsutil.ReadMessage and many applications consume a frame whose size they know): the
 	// Reader never gets to report the end of that message.
 	ExactRead bool
+	// Retry: the consumer is a deadline-driven read loop - a NextFrame or Read that fails with a timeout
+	// (net.Error, Timeout() true) is simply called again (reader entry).
+	Retry bool
+}
+
+func isTimeout(err error) bool {
+	ne, ok := err.(net.Error)
+	return ok && ne.Timeout()
 }
 
 // Wraps are the kinds of source an application may hand to the readers: what
@@ -97,6 +106,8 @@ type Obs struct {
 	// CtlShort records control handler invocations that saw fewer bytes than
 	// the header announced without an error.
 	CtlShort []string
+	// Retried counts the calls repeated after a timeout (Opts.Retry).
+	Retried int
 }
 
 var errSpin = errors.New("drive: reader spins returning (0, nil)")
@@ -208,8 +219,14 @@ func Run(src io.Reader, o Opts) (obs Obs) {
 		if o.ContRead && len(buf) == CopyBuf {
 			buf = make([]byte, 4096) // (io.Copy collects its bytes apart: the handler's bytes would come out of order)
 		}
+		retries := 0
 		for ord := 0; !full(); {
 			h, err := rd.NextFrame()
+			if err != nil && o.Retry && isTimeout(err) && retries < 16 {
+				retries++
+				obs.Retried++
+				continue
+			}
 			if err != nil {
 				obs.Err = err
 				return
@@ -274,6 +291,11 @@ func Run(src io.Reader, o Opts) (obs Obs) {
 			obs.InMessage, obs.PartialOp = true, byte(h.OpCode)
 			cur = &p
 			err = readAll(rd, buf, &p)
+			for err != nil && o.Retry && isTimeout(err) && retries < 16 {
+				retries++
+				obs.Retried++
+				err = readAll(rd, buf, &p)
+			}
 			cur = nil
 			if err != nil {
 				obs.Err = err
